@@ -86,6 +86,64 @@ def _perm_of_moveaxis(n, a, b):
     return order
 
 
+
+def narrow_arith_rule(chk, src):
+    """the term table is stored as 16-bit unsigned integers: arithmetic on its entries wraps around silently; entries may only be compared, copied, indexed with,
+    or converted to a wider type before any arithmetic"""
+    TABLE_NAMES = {"table", "table_row", "table_col", "term_row", "term_col", "new_table"}
+    n = 0
+    for rel in (SYM, "renormalizer/tn/symbolic_ttno.py"):
+        for fi in src.funcs_in(rel):
+            if fi.parent is not None:
+                continue
+            params = set(fi.params()) & TABLE_NAMES
+            u16 = {unparse(st.targets[0]) for st in ast.walk(fi.node) if isinstance(st, ast.Assign) and "uint16" in unparse(st.value) and isinstance(st.targets[0], ast.Name)}
+            # a table converted by np.array(table) without dtype / int64 is wide: names rebound that way are not tainted afterwards (flow-insensitively: only if every binding is wide)
+            wide = {unparse(st.targets[0]) for st in ast.walk(fi.node) if isinstance(st, ast.Assign) and isinstance(st.targets[0], ast.Name) and isinstance(st.value, ast.Call)
+                    and unparse(st.value.func) in ("np.array", "np.asarray") and not any(k.arg == "dtype" for k in st.value.keywords) and isinstance(st.value.args[0], ast.Name)
+                    and st.value.args[0].id == unparse(st.targets[0]) and st.value.args[0].id not in fi.params()}
+            tainted = (params | u16) - wide
+            if not tainted:
+                continue
+
+            def value_use(e):
+                """does expression e read *entries* of a tainted table (not its shape / length)?"""
+                for x in ast.walk(e):
+                    if isinstance(x, ast.Name) and x.id in tainted:
+                        return True
+                return False
+
+            def strip_meta(e):
+                """replace len(t), t.shape, t.ndim, t.size by constants so that only entry reads remain"""
+                class R(ast.NodeTransformer):
+                    def visit_Call(self, c):
+                        if unparse(c.func) == "len":
+                            return ast.Constant(0)
+                        if isinstance(c.func, ast.Attribute) and c.func.attr == "astype" and c.args and unparse(c.args[0]) in ("int", "np.int64", "np.int32", "np.uint32", "np.uint64", "'int64'", "float"):
+                            return ast.Constant(0)
+                        if unparse(c.func) in ("int", "np.int64", "np.int32", "np.uint32", "np.uint64", "float"):
+                            return ast.Constant(0)
+                        return self.generic_visit(c)
+
+                    def visit_Attribute(self, a):
+                        if a.attr in ("shape", "ndim", "size", "dtype"):
+                            return ast.Constant(0)
+                        return self.generic_visit(a)
+                import copy
+                return R().visit(copy.deepcopy(e))
+            for b in ast.walk(fi.node):
+                if isinstance(b, ast.BinOp) and isinstance(b.op, (ast.Mult, ast.Add, ast.Sub, ast.LShift, ast.Pow)):
+                    l, r = strip_meta(b.left), strip_meta(b.right)
+                    if value_use(l) or value_use(r):
+                        n += 1
+                        chk.ob("narrow-arith", f"{fi.qual}: {unparse(b)[:60]}", False, fi.where, unparse(b)[:80], "comparison / indexing only, or .astype(np.int64) first", line=b.lineno,
+                               detail=f"{fi.qual} does arithmetic on entries of the 16-bit term table: the result wraps modulo 65536 without any warning once (bond dimension) x (number of "
+                                      "elementary operators) reaches that size, merging distinct rows")
+            chk.ob("narrow-arith", f"{fi.qual}: no arithmetic on table entries", True, fi.where, sorted(tainted), "")
+            n += 1
+    return n
+
+
 def run(chk):
     src = chk.src
     chk.explanation = (
@@ -101,6 +159,8 @@ def run(chk):
     chk.rule("offset-sign", "offset -> factor: exactly one negation, appended on the all-identity row, only when non-zero", 4)
     chk.rule("algo-dispatch", "dispatch total over {qr, Hopcroft-Karp, Hungarian}; unknown -> assert False; defaults documented", 5)
     chk.rule("narrow-cast", "uint16 construction from a computed count is guarded by an assert against iinfo(uint16).max", 3)
+    chk.rule("narrow-arith", "no arithmetic on entries of the uint16 term table before widening", 4)
+    narrow_arith_rule(chk, src)
     chk.rule("factor-dtype", "arrays receiving factor-derived values do not have a fixed real dtype", 2)
     chk.rule("layout", "site tensor layout (left, row, column, right): builder permutation and provenance of the local matrices (abstract run), dense readers, symbolic matrix indexing", 4)
     chk.rule("qr-shortcut-shape", "_decompose_qr: the branch that skips the QR factorisation is shape-consistent and guarded by `one column`", 2)
